@@ -58,7 +58,7 @@ fn only_worker(world: &World, w: u64) -> World {
         .iter()
         .filter(|op| match op {
             Op::Spawn { w: x, .. } | Op::Kill { w: x } | Op::Expand { w: x, .. } | Op::Frag { w: x, .. } => *x == w,
-            Op::Clock { .. } | Op::Pid { .. } => true,
+            Op::Clock { .. } | Op::Pid { .. } | Op::FsWipe => true,
         })
         .cloned()
         .collect();
@@ -248,7 +248,7 @@ pub fn minimise(full: &Scenario, a: &Obs, b: &Obs, budget: usize) -> Option<Mini
                 }
             }
             // perturbation kinds, one kind at a time
-            for kind in 0..3 {
+            for kind in 0..4 {
                 let mut c = cur.clone();
                 for w in c.worlds.iter_mut() {
                     let last = w.ops.len() - 1;
@@ -260,6 +260,7 @@ pub fn minimise(full: &Scenario, a: &Obs, b: &Obs, budget: usize) -> Option<Mini
                             || !match kind {
                                 0 => matches!(op, Op::Clock { .. }),
                                 1 => matches!(op, Op::Pid { .. }),
+                                2 => matches!(op, Op::FsWipe),
                                 _ => matches!(op, Op::Frag { .. }),
                             }
                     });
